@@ -242,6 +242,33 @@ static void run_cfg_case(struct rng *r, long c)
 							nextra++;
 					}
 				}
+				else if (cur < 7 && rndp(r, 1, 4)) {
+					/* an add that gets past the duplicate check and fails further down: the new group's sockets are
+					 * initialised with the intervals of a socket the manager already has - put a value there that
+					 * rtr_init() must refuse (a cache can do the same through End of Data in accept-any mode).  The
+					 * manager must be exactly what it was before, in particular its last group stays unremovable. */
+					unsigned int keep[8];
+
+					for (int i = 0; i < 8; i++) {
+						keep[i] = socks[i].refresh_interval;
+						socks[i].refresh_interval = 100000; /* above the maximum of 86400 */
+					}
+					for (int i = 0; i < nextra; i++)
+						extra[i].refresh_interval = 100000;
+					rc = rtr_mgr_add_group(conf, &ng2);
+					for (int i = 0; i < 8; i++)
+						socks[i].refresh_interval = keep[i];
+					for (int i = 0; i < nextra; i++)
+						extra[i].refresh_interval = 3600;
+					CNT("c15/add_group_failing_after_the_duplicate_check");
+					if (rc == RTR_SUCCESS) {
+						/* accepted after all (the library may take its intervals from elsewhere): a regular add then */
+						have[cur++] = p;
+						nextra++;
+					} else {
+						CNT("c15/add_group_refused_after_the_duplicate_check");
+					}
+				}
 				else if (cur < 7) {
 					/* a fresh preference must be accepted and sorted in (its sockets block in their connect) */
 					rc = rtr_mgr_add_group(conf, &ng2);
